@@ -129,7 +129,7 @@ def main():
     if "--checks-only" in sys.argv:
         meta = json.load(open(os.path.join(d, "meta.json")))
         v = meta["confirmed_in_scratch_worktree"]
-    elif prop == "C14":
+    elif prop == "C14" or "--example" in sys.argv:
         v = scratch_verify_c14(os.path.join(d, "patch.diff"), n, src)
     else:
         v = scratch_verify(os.path.join(d, "patch.diff"), os.path.join(d, "demo.rs"))
